@@ -358,6 +358,7 @@ class World:
         self.dropped_sends = []
         self.open = set()
         self.max_open = 0
+        self._buckets = {}
 
     # -- transports ----------------------------------------------------------------------------
     def register(self, tr) -> int:
@@ -402,10 +403,26 @@ class World:
         def _do():
             ok = tr.peer_deliver(data)
             self.deliveries.append((loop.vtime, tr.tid, index, data, ok, len(self.tx) - 1))
-        loop.call_later(delay, _do)
+        self._at(loop, delay, _do)
 
     def call_later(self, tr, delay: float, fn, *args):
-        tr._vloop.call_later(delay, fn, *args)
+        self._at(tr._vloop, delay, lambda: fn(*args))
+
+    def _at(self, loop, delay, fn):
+        """Peer events scheduled for the same instant happen in the order they were scheduled (asyncio's timer heap
+        is not FIFO for equal deadlines; a network path does not reorder two datagrams sent back to back)."""
+        when = loop.vtime + delay
+        key = (id(loop), when)
+        bucket = self._buckets.get(key)
+        if bucket is None:
+            bucket = self._buckets[key] = []
+
+            def _run():
+                self._buckets.pop(key, None)
+                for f in list(bucket):
+                    f()
+            loop.call_at(when, _run)
+        bucket.append(fn)
 
 
 # ---------------------------------------------------------------------------------------------
